@@ -214,7 +214,12 @@ def gen_cases(tier, seed):
             mid = "#[rustfmt::skip]\n" + (decl % "zz_skip")
         else:
             mid = "const ZZ_OTHER: u8 = 0;" if form != "use" else "mod zz_other;"
-        text = "\n".join(decl % x for x in g1) + "\n" + mid + "\n" + "\n".join(decl % x for x in g2) + "\n"
+        def spell(x):
+            # some imports are spelled with a brace list (or a glob) at the ROOT of the path: `use {x::y, x::w};`
+            if form == "use" and rnd.random() < 0.3:
+                return rnd.choice(["use {%s::y, %s::w};", "use {%s::y, other_root::%s};", "use {%s::*, %s::w};"]) % (x, x)
+            return decl % x
+        text = "\n".join(spell(x) for x in g1) + "\n" + mid + "\n" + "\n".join(spell(x) for x in g2) + "\n"
         cfg = [["style_edition", rnd.choice(["2015", "2024"])], ["group_imports", rnd.choice(["Preserve", "StdExternalCrate", "One"])],
                ["reorder_imports", rnd.choice(["true", "true", "false"])], ["reorder_modules", rnd.choice(["true", "true", "false"])]]
         cases.append({"kind": "perms", "config": cfg, "texts": [text], "names": names, "form": form, "boundary": boundary, "g1": g1, "g2": g2})
